@@ -68,7 +68,8 @@ type VerifSGConn struct {
 // VerifSGFrame describes one frame of a packet payload.
 // Kind: 0 STREAM (1 byte of data at offset 0), 1 RESET_STREAM, 2 STREAM_DATA_BLOCKED,
 // 3 STOP_SENDING, 4 MAX_STREAM_DATA, 5 PING, 6 MAX_STREAMS (ID = count, Uni = type),
-// 7 STREAM with FIN (1 byte at offset 0; RESET_STREAM has final size 1, so the two agree).
+// 7 STREAM with FIN (1 byte at offset 0; RESET_STREAM has final size 1, so the two agree),
+// 8 a malformed frame (unknown frame type).
 type VerifSGFrame struct {
 	Kind int
 	ID   int64
@@ -151,7 +152,7 @@ func verifSGWire(f VerifSGFrame) wire.Frame {
 
 // Packet serialises the frames into one 1-RTT payload and handles it like
 // handleShortHeaderPacket does after unpacking. Returns the error class
-// (0 none, 1 STREAM_STATE_ERROR, 2 STREAM_LIMIT_ERROR, 7 other), the transport error code (or -1)
+// (0 none, 1 STREAM_STATE_ERROR, 2 STREAM_LIMIT_ERROR, 8 FRAME_ENCODING_ERROR, 7 other), the transport error code (or -1)
 // and the number of frames the tracer was given (-1 without a tracer).
 func (v *VerifSGConn) Packet(frames []VerifSGFrame) (class int, code int64, logged int, msg string) {
 	defer func() {
@@ -161,6 +162,10 @@ func (v *VerifSGConn) Packet(frames []VerifSGFrame) (class int, code int64, logg
 	}()
 	var data []byte
 	for _, f := range frames {
+		if f.Kind == 8 { // a frame type that does not exist: the parser fails with FRAME_ENCODING_ERROR
+			data = append(data, 0x1f)
+			continue
+		}
 		var err error
 		data, err = verifSGWire(f).Append(data, protocol.Version1)
 		if err != nil {
@@ -194,6 +199,8 @@ func (v *VerifSGConn) Packet(frames []VerifSGFrame) (class int, code int64, logg
 			return 1, int64(te.ErrorCode), logged, te.Error()
 		case qerr.StreamLimitError:
 			return 2, int64(te.ErrorCode), logged, te.Error()
+		case qerr.FrameEncodingError:
+			return 8, int64(te.ErrorCode), logged, te.Error()
 		}
 		return 7, int64(te.ErrorCode), logged, te.Error()
 	}
